@@ -199,4 +199,100 @@ mod c25 {
         }
         println!("VERIF-B unit=settings test=c25_settings_path_updates_do_not_depend_on_history evaluations={evals} nontrivial={nontrivial} exhaustive=true domain=7 settings paths (bool, number, array and two object-valued) x every ordered pair of 2..4 values; violations={viol}");
     }
+
+    // the atomic-failure clause on the real Settings through the public update calls (the same clause the Verus unit
+    // proves on the function bodies; this part also decides it when a changed body no longer fits the unit): every
+    // update that returns Err leaves the instance exactly as it was, for documents that fail at each stage
+    // (parse, format name, type mismatch, validate()), on several starting instances.
+    #[test]
+    fn c25_failed_updates_leave_settings_unchanged() {
+        let starts: Vec<Settings> = [
+            r#"{}"#,
+            r#"{"verify": {"verify_trust": false}, "core": {"max_decompressed_manifest_size_in_mb": 16}}"#,
+            r#"{"core": {"allowed_network_hosts": ["a.ok"], "merkle_tree_chunk_size_in_kb": 64}, "builder": {"thumbnail": {"enabled": false}}}"#,
+        ]
+        .iter()
+        .filter_map(|j| Settings::default().with_json(j).ok())
+        .collect();
+        // (document, format)
+        let docs: Vec<(String, &str)> = vec![
+            ("{ not json".to_string(), "json"),
+            ("= not toml".to_string(), "toml"),
+            (r#"{"verify": {"verify_trust": true}}"#.to_string(), "yaml"),
+            (r#"{"verify": {"verify_trust": "maybe"}}"#.to_string(), "json"),
+            (r#"{"core": {"merkle_tree_chunk_size_in_kb": "big"}}"#.to_string(), "json"),
+            (r#"{"core": {"max_decompressed_manifest_size_in_mb": 4096}}"#.to_string(), "json"),
+            ("[core]\nmax_decompressed_manifest_size_in_mb = 4096\n".to_string(), "toml"),
+            (r#"{"version": 99}"#.to_string(), "json"),
+            (r#"{"trust": {"trust_anchors": "this is not a PEM bundle"}}"#.to_string(), "json"),
+            (r#"{"verify": {"verify_trust": true}, "core": {"max_decompressed_manifest_size_in_mb": 2000}}"#.to_string(), "json"),
+            (r#"{"builder": {"thumbnail": {"long_edge": -5}}}"#.to_string(), "json"),
+            (r#"{"builder": {"actions": {"templates": "none"}}}"#.to_string(), "json"),
+        ];
+        let paths: Vec<(&str, Value)> = vec![
+            ("core.max_decompressed_manifest_size_in_mb", json!(4096)),
+            ("version", json!(99)),
+            ("verify.verify_trust", json!("maybe")),
+            ("trust.trust_anchors", json!("this is not a PEM bundle")),
+            ("no.such.path", json!(1)),
+        ];
+        let snapshot = |s: &Settings| serde_json::to_value(s).unwrap_or(Value::Null);
+        let mut evals = 0usize;
+        let mut nontrivial = 0usize;
+        let mut counts: std::collections::BTreeMap<String, usize> = std::collections::BTreeMap::new();
+        let mut stages: std::collections::BTreeSet<String> = std::collections::BTreeSet::new();
+        let mut bad = |k: &str, input: String, counts: &mut std::collections::BTreeMap<String, usize>| {
+            let c = counts.entry(k.to_string()).or_insert(0);
+            *c += 1;
+            if *c <= 3 {
+                println!("VERIF-B-VIOLATION key={k} input={input}");
+            }
+        };
+        for (si, start) in starts.iter().enumerate() {
+            let before = snapshot(start);
+            for (doc, format) in &docs {
+                evals += 1;
+                let mut s = start.clone();
+                match s.update_from_str(doc, format) {
+                    Err(e) => {
+                        nontrivial += 1;
+                        stages.insert(format!("{e:?}").chars().take(24).collect());
+                        if snapshot(&s) != before {
+                            bad("settings.failed_update_changed_settings.update_from_str", format!("start #{si}, update_from_str({doc:?}, {format:?}) -> Err({e}) but the instance changed"), &mut counts);
+                        }
+                    }
+                    Ok(()) => {
+                        if s.validate().is_err() {
+                            bad("settings.accepted_update_fails_validation", format!("start #{si}, update_from_str({doc:?}, {format:?}) -> Ok but validate() fails"), &mut counts);
+                        }
+                    }
+                }
+                // the builder-style twins never touch the receiver
+                let r = if *format == "toml" { start.with_toml(doc) } else { start.with_json(doc) };
+                if r.is_err() && snapshot(start) != before {
+                    bad("settings.failed_update_changed_settings.with_string", format!("start #{si}, with_{format}({doc:?})"), &mut counts);
+                }
+            }
+            for (path, v) in &paths {
+                evals += 1;
+                let mut s = start.clone();
+                match s.set_value(path, v.clone()) {
+                    Err(e) => {
+                        nontrivial += 1;
+                        if snapshot(&s) != before {
+                            bad("settings.failed_update_changed_settings.set_value", format!("start #{si}, set_value({path:?}, {v}) -> Err({e}) but the instance changed"), &mut counts);
+                        }
+                    }
+                    Ok(()) => {
+                        if s.validate().is_err() {
+                            bad("settings.accepted_update_fails_validation", format!("start #{si}, set_value({path:?}, {v}) -> Ok but validate() fails"), &mut counts);
+                        }
+                    }
+                }
+            }
+        }
+        println!("VERIF-B-SAMPLE error kinds met: {:?}", stages);
+        println!("VERIF-B-SAMPLE violation classes this run: {:?}", counts);
+        println!("VERIF-B unit=settings test=c25_failed_updates_leave_settings_unchanged evaluations={evals} nontrivial={nontrivial} exhaustive=true domain={} starting instances x ({} documents through update_from_str and with_json / with_toml + {} path updates through set_value), documents failing at parse, format, type and validate() stage", starts.len(), docs.len(), paths.len());
+    }
 }
